@@ -88,6 +88,59 @@ func (w *World) upValues(fn *ssa.Function, v ssa.Value, depth int) [][2]interfac
 		}
 		break
 	}
+	// the result of a function handed in as a parameter (a validation / parsing step supplied by the caller as a
+	// function literal): what that literal returns, in the caller that wrote it
+	if depth <= 4 {
+		var dyn *ssa.Call
+		ridx := 0
+		switch x := bare.(type) {
+		case *ssa.Extract:
+			dyn, _ = x.Tuple.(*ssa.Call)
+			ridx = x.Index
+		case *ssa.Call:
+			dyn = x
+		}
+		if dyn != nil {
+			if fp, isP := dyn.Common().Value.(*ssa.Parameter); isP && fp.Parent() == fn && !dyn.Common().IsInvoke() {
+				fidx := -1
+				for i, x := range fn.Params {
+					if x == fp {
+						fidx = i
+					}
+				}
+				var out [][2]interface{}
+				complete := fidx >= 0
+				callers := w.CG().Callers[fn]
+				for _, cs := range callers {
+					a := cs.Common().Args
+					if cs.Common().IsInvoke() || fidx >= len(a) {
+						complete = false
+						break
+					}
+					mc, isMC := a[fidx].(*ssa.MakeClosure)
+					if !isMC {
+						complete = false
+						break
+					}
+					lit, _ := mc.Fn.(*ssa.Function)
+					if lit == nil || lit.Blocks == nil || lit.Parent() != cs.Caller {
+						complete = false
+						break
+					}
+					for _, ret := range Returns(lit) {
+						if rv := retVals(ret); ridx < len(rv) {
+							// a literal that returns the result of a parsing helper: the value is followed from the literal's
+							// lexical parent (its captured variables are that function's values)
+							out = append(out, [2]interface{}{cs.Caller, rv[ridx]})
+						}
+					}
+				}
+				if complete && len(callers) > 0 && len(out) > 0 {
+					return out
+				}
+			}
+		}
+	}
 	p, ok := bare.(*ssa.Parameter)
 	if !ok || depth > 4 {
 		return [][2]interface{}{{fn, v}}
